@@ -23,7 +23,7 @@ RULE = ("five hand-built topologies (path with valves, tee with flow control and
 ASSUMPTIONS = ["junction in_service flags are only toggled together with... nothing: the model follows the statement, which does not mention the junction's own flag; ext grids on out-of-service junctions do not supply"]
 CONFIG = {"quick": {"shards": 8, "timeout_s": 600, "patterns_per_topology": 140, "random": 160},
           "thorough": {"shards": 16, "timeout_s": 3000, "patterns_per_topology": None, "random": 3000}}
-REQUIRED_COUNTERS = ["patterns_judged", "junction_pattern_checks", "branch_pattern_checks", "load_pattern_checks",
+REQUIRED_COUNTERS = ["thermal_deletion_equivalence_checks", "patterns_judged", "junction_pattern_checks", "branch_pattern_checks", "load_pattern_checks",
                      "deletion_equivalence_checks", "nothing_supplied_checks", "patterns_mixed_supplied_unsupplied",
                      "patterns_random_nets", "patterns_heating_loop"]
 EXHAUSTIVE = {"quick": False, "thorough": True}
@@ -86,7 +86,8 @@ def topologies():
         [("p0", "in_service"), ("p1", "in_service"), ("p2", "in_service"), ("p4", "in_service"), ("p5", "in_service"), ("p3", "in_service"),
          ("v0", "opened"), ("v1", "opened"), ("c0", "in_service"), ("eg0", "in_service"), ("eg1", "in_service")])
     # T4 heating loop
-    T["loop"] = ({"fluid": "water", "junctions": [J("f0", t=350.0), J("f1", t=350.0), J("f2", t=350.0), J("r0", t=320.0), J("r1", t=320.0), J("r2", t=320.0)], "elements": [
+    T["loop"] = ({"fluid": "water", "junctions": [J("f0", t=350.0), J("f1", t=350.0), J("f2", t=350.0), J("r0", t=320.0), J("r1", t=320.0), J("r2", t=320.0), J("c0", t=290.0), J("c1", t=290.0)], "elements": [
+        pipe("pc0", "c0", "c1", u_w_per_m2k=2.0, text_k=280.0),
         {"kind": "circ_pump_pressure", "name": "cp0", "return_junction": "r0", "flow_junction": "f0", "p_flow_bar": 6.0, "plift_bar": 2.0, "t_flow_k": 360.0, "in_service": True},
         pipe("pf1", "f0", "f1", u_w_per_m2k=3.0, text_k=280.0), pipe("pf2", "f1", "f2", u_w_per_m2k=3.0, text_k=280.0, sections=2),
         pipe("pr1", "r1", "r0", u_w_per_m2k=3.0, text_k=280.0), pipe("pr2", "r2", "r1", u_w_per_m2k=3.0, text_k=280.0),
@@ -94,8 +95,11 @@ def topologies():
         {"kind": "heat_consumer", "name": "hc2", "from_junction": "f2", "to_junction": "r2", "controlled_mdot_kg_per_s": 0.5, "deltat_k": 20.0, "in_service": True},
         {"kind": "flow_control", "name": "fc2", "from_junction": "f2", "to_junction": "r2", "controlled_mdot_kg_per_s": 0.2, "control_active": True, "in_service": True},
         {"kind": "valve", "name": "vb", "junction": "f1", "element": "r1", "et": "ju", "inner_diameter_mm": 20.0, "opened": False, "loss_coefficient": 50.0},
-        {"kind": "circ_pump_pressure", "name": "cp1", "return_junction": "r2", "flow_junction": "f2", "p_flow_bar": 5.5, "plift_bar": 1.5, "t_flow_k": 355.0, "in_service": False}]},
-        [("pf1", "in_service"), ("pf2", "in_service"), ("pr1", "in_service"), ("pr2", "in_service"), ("hc1", "in_service"),
+        {"kind": "circ_pump_pressure", "name": "cp1", "return_junction": "r2", "flow_junction": "f2", "p_flow_bar": 5.5, "plift_bar": 1.5, "t_flow_k": 355.0, "in_service": False},
+        # a line fed by a pressure-only grid: hydraulically supplied, without temperature source; its pipes stand first in the table
+        {"kind": "ext_grid", "name": "eg_cold", "junction": "c0", "p_bar": 4.0, "t_k": 285.0, "type": "p", "in_service": True},
+        {"kind": "sink", "name": "s_cold", "junction": "c1", "mdot_kg_per_s": 0.3, "scaling": 1.0, "in_service": True}]},
+        [("eg_cold", "in_service"), ("pf1", "in_service"), ("pf2", "in_service"), ("pr1", "in_service"), ("pr2", "in_service"), ("hc1", "in_service"),
          ("hc2", "in_service"), ("fc2", "in_service"), ("fc2", "control_active"), ("vb", "opened"), ("cp0", "in_service"), ("cp1", "in_service")])
     # T5 two grids (one may be off) and an island
     T["island"] = ({"fluid": "water", "junctions": [J("a"), J("b"), J("c"), J("x"), J("y")], "elements": [
@@ -273,7 +277,52 @@ def judge(spec, mode, obs, label):
             if d:
                 obs.violate("supplied_part_depends_on_the_rest", "results of the supplied part differ from the pruned network: "
                             "res_%s[%s].%s %s (%d differences)" % (d[0][0], d[0][1], d[0][2], d[0][3], len(d)), **desc)
+    # ---- thermal connectivity: a hydraulically supplied part without any temperature source is no part of the thermal
+    # calculation; the results of the thermally supplied part equal those of the network without it
+    if mode in ("sequential", "bidirectional"):
+        hyd = reach.prune(spec, reached)
+        warm = thermally_supplied(hyd)
+        if warm and len(warm) < len(hyd["junctions"]):
+            tnet = netgen.build(reach.prune(hyd, warm))
+            tout, _ = run_pipeflow(tnet, opts)
+            if tout != "ok":
+                obs.count("thermal_deletion_not_comparable")
+            else:
+                s_full, s_t = snapshot(net), snapshot(tnet)
+                sub = {t: {n: r for n, r in rows.items() if n in s_t[t]} for t, rows in s_full.items() if t in s_t}
+                d, n, md = diff_snapshots(sub, s_t, rtol=1e-7, atol=1e-9, col_atol={"qext_w": 1e-5})
+                obs.count("thermal_deletion_equivalence_checks")
+                if d:
+                    obs.violate("thermally_supplied_part_depends_on_the_rest", "results of the thermally supplied part differ from the network without the "
+                                "part that has no temperature source: res_%s[%s].%s %s (%d differences)" % (d[0][0], d[0][1], d[0][2], d[0][3], len(d)), **desc)
     return mixed
+
+
+def thermally_supplied(spec):
+    """Junction names reachable from a temperature-fixing feeder over the branch elements of a (hydraulically pruned) spec."""
+    start = set()
+    for e in spec["elements"]:
+        if e["kind"] == "ext_grid" and "t" in str(e.get("type", "pt")):
+            start.add(e["junction"])
+        elif e["kind"] in ("circ_pump_mass", "circ_pump_pressure"):
+            start.add(e["flow_junction"])
+    adj = {}
+    for e in spec["elements"]:
+        a = e.get("from_junction", e.get("return_junction"))
+        b = e.get("to_junction", e.get("flow_junction"))
+        if e["kind"] == "valve" and e["et"] == "ju":
+            a, b = e["junction"], e["element"]
+        if a is not None and b is not None and e["kind"] != "press_control_x":
+            adj.setdefault(a, set()).add(b)
+            adj.setdefault(b, set()).add(a)
+    seen, todo = set(start), list(start)
+    while todo:
+        x = todo.pop()
+        for y in adj.get(x, ()):
+            if y not in seen:
+                seen.add(y)
+                todo.append(y)
+    return seen
 
 
 def run_case(case, ctx):
